@@ -1,19 +1,26 @@
 import Arimaa.Props.C08
 import Arimaa.Lemmas.RsAgreeStep
 import Arimaa.Lemmas.RsAgreeTHash
+import Arimaa.Gen.Bridge.GameState_eq
+import Arimaa.Gen.Bridge.GameState_take_action
+import Arimaa.Gen.Bridge.GameState_transposition_hash
+import Arimaa.Gen.Bridge.Zobrist_from_piece_board
+import Arimaa.Gen.Bridge.piece_board_value
 
 /-!
 # C08 — the property at the level of the REGENERATED code
 
 `Gen/Rs.lean` is written by `tools/rs2lean2.py` from the current text of engine.rs / zobrist.rs on every
-run; `Lemmas/RsAgree*.lean` prove that each regenerated function equals
-`Res.guard (hand panic guard) (hand total function)`.  This file puts the agreement theorems of the
-functions C08 rests on into the property's proof closure and restates them as one named obligation
-(`C08_code_agrees`), plus corollaries that speak about the regenerated functions directly.  A change of
-the Rust text of one of these functions breaks an obligation here without any test having to find the input.
+run.  `Gen/Bridge/<fn>.lean` (generated) proves `@Rs.fn = @RsBase.fn` — the current text against the
+baseline text — and `Lemmas/RsAgree*.lean` prove that each baseline function equals
+`Res.guard (hand panic guard) (hand total function)`.  This file puts both, for the functions C08 rests
+on, into the property's proof closure and restates them as one named obligation (`C08_code_agrees`) about
+the CURRENT functions, plus corollaries that speak about them directly.  A change of the Rust text of one
+of these functions that alters behaviour breaks an obligation here without any test having to find the input.
+(written by tools/mkrprops.py)
 -/
 namespace Arimaa
-open Gen GameState Arimaa.Gen.Rs Arimaa.Rt
+open Gen GameState Arimaa.Gen.Rs Arimaa.Rt Arimaa.Gen.Bridge
 
 theorem C08_value_of_ok {α : Type} {x : Res α} {p : Bool} {v w : α} (h : x = Res.guard p v) (hx : x = .ok w) :
     p = false ∧ w = v := by
@@ -21,14 +28,18 @@ theorem C08_value_of_ok {α : Type} {x : Res α} {p : Bool} {v w : α} (h : x = 
   obtain ⟨hp, hv⟩ := Res.guard_eq_ok.mp hx
   exact ⟨hp, hv.symm⟩
 
-/-- the agreement theorems C08 rests on, as one obligation -/
+/-- the agreement theorems C08 rests on, about the CURRENT functions, as one obligation -/
 theorem C08_code_agrees :
     (∀ (s : GameState) (a : Action), GameState_take_action s a = Res.guard (s.takeActionPanics a) (s.takeAction a)) ∧
     (∀ (b : Board) (p1 : Bool) (step : Nat), Zobrist_from_piece_board b p1 step = Res.guard (zFromPieceBoardPanics b step) (zFromPieceBoard b p1 step)) ∧
     (∀ prev new : Board, piece_board_value prev new = Res.guard (pieceBoardValuePanics prev new) (pieceBoardValue prev new)) ∧
     (∀ s : GameState, GameState_transposition_hash s = Res.guard s.transpositionHashPanics s.transpositionHash) ∧
     (∀ a b : GameState, GameState_eq a b = (a.hash == b.hash)) :=
-  ⟨RsAgree.take_action_eq, RsAgree.from_piece_board_eq, RsAgree.piece_board_value_eq, RsAgree.transposition_hash_eq, RsAgree.game_state_eq⟩
+  ⟨(by simp only [bridge_GameState_take_action]; exact RsAgree.take_action_eq),
+   (by simp only [bridge_Zobrist_from_piece_board]; exact RsAgree.from_piece_board_eq),
+   (by simp only [bridge_piece_board_value]; exact RsAgree.piece_board_value_eq),
+   (by simp only [bridge_GameState_transposition_hash]; exact RsAgree.transposition_hash_eq),
+   (by simp only [bridge_GameState_eq]; exact RsAgree.game_state_eq)⟩
 
 
 end Arimaa
